@@ -317,6 +317,9 @@ impl ZincEncode for Grid {
                 for (i, col) in self.columns.iter().enumerate() {
                     if let Some(tag) = row.get(&col.name) {
                         tag.zinc_encode(writer, InnerGrid::Yes)?;
+                    } else if self.columns.len() == 1 {
+                        // The only cell of the row, an empty line would end the grid
+                        writer.write_all(b"N")?;
                     }
                     if i < self.columns.len() - 1 {
                         writer.write_all(b",")?;
